@@ -15,6 +15,7 @@ import (
 	"path/filepath"
 	"sort"
 	"strings"
+	"sync"
 	"time"
 
 	"gosym/interp"
@@ -399,10 +400,17 @@ func run(c *config) int {
 	}
 	readyCh := make(chan readyMsg, maxW)
 	spawning := 0
+	var allCmds []*exec.Cmd
+	var cmdMu sync.Mutex
 	spawn := func() {
 		spawning++
 		go func() {
 			w, err := startWorker(c)
+			if err == nil {
+				cmdMu.Lock()
+				allCmds = append(allCmds, w.cmd)
+				cmdMu.Unlock()
+			}
 			if err != nil {
 				readyCh <- readyMsg{nil, err}
 				return
@@ -421,11 +429,11 @@ func run(c *config) int {
 		}()
 	}
 	defer func() {
-		for _, w := range workers {
-			if w != nil {
-				w.cmd.Process.Kill()
-				w.cmd.Wait()
-			}
+		cmdMu.Lock()
+		defer cmdMu.Unlock()
+		for _, cmd := range allCmds {
+			cmd.Process.Kill()
+			go cmd.Wait()
 		}
 	}()
 	// first worker synchronously (also warms the build cache)
@@ -481,14 +489,11 @@ func run(c *config) int {
 		}
 		// more work than workers: grow the pool
 		if overLimit == "" && c.Prefix == "" {
-			for want := len(stack); want > spawning && len(workers)+spawning < maxW; {
+			for want := len(stack)/3 + 1; want > len(workers)+spawning && len(workers)+spawning < maxW; {
 				spawn()
 			}
 		}
-		if busy == 0 && overLimit != "" {
-			break
-		}
-		if busy == 0 && spawning == 0 {
+		if busy == 0 && (overLimit != "" || len(stack) == 0) {
 			break
 		}
 		var r wres
